@@ -1,6 +1,6 @@
 (** C09 — File meta group integrity and preamble handling.
     Statements only; proofs are in Proofs/MetaP.v, the model in Model/Meta.v. *)
-From DicomV Require Import Base.Prelude Base.Endian Model.Meta Proofs.MetaP.
+From DicomV Require Import Base.Prelude Base.Endian Model.Meta Proofs.MetaP Proofs.MetaTotalP.
 Open Scope N_scope.
 
 (** Every table produced by the builder records the calculated length, and ANY list of
@@ -92,6 +92,30 @@ Theorem C09_preamble_asymmetry : forall buf, detect_preamble buf = Ok PAuto ->
   skip_by_path PAuto buf = Ok 128 /\ skip_by_reader PAuto buf = Ok 0.
 Proof. exact auto_asymmetry. Qed.
 
+(** Totality of the meta group reader over ARBITRARY bytes (requested by C05).
+    [read_meta] transcribes every branch of FileMetaTable::read_from; its loop runs on fuel
+    [S (length input)] (each iteration consumes at least the 8 header bytes).
+    (a) in any build the reader returns a value or an error: never a panic, and the fuel is never
+        exhausted (error class 99), so the loop ends within [length input / 8 + 1] iterations;
+    (b) the only panic sites reachable from read_from are the overflow checks of debug builds in
+        calculate_information_group_length ([x.len() as u32 + 1], the chain of u32 additions), modelled
+        by [read_meta_dbg]: they cannot fire for inputs below 512 MiB (every field is a disjoint slice of
+        the input, at most 4 UTF-8 bytes per input byte); in release builds they wrap and (a) applies;
+    (c) preamble detection and both openers (up to the end of the meta group) never panic either. *)
+Theorem C09_read_total : forall iu inm b,
+  (forall w, read_meta iu inm b <> Panic w) /\ read_meta iu inm b <> Err 99.
+Proof. exact read_meta_total. Qed.
+Theorem C09_read_total_debug : forall iu inm b w,
+  blen b < 536870912 -> slen iu + slen inm < 1073741824 -> read_meta_dbg iu inm b <> Panic w.
+Proof. exact read_meta_dbg_no_panic. Qed.
+Theorem C09_open_total : forall (iu inm : str) (opt : preamble) (file : bytes) (w : N),
+  (forall buf, detect_preamble buf <> Panic w) /\
+  open_by_path iu inm opt file <> Panic w /\ open_by_reader iu inm opt file <> Panic w.
+Proof.
+  intros iu inm opt file w. destruct skip_no_panic as [Hp Hr]. split; [intros buf; apply detect_preamble_no_panic|].
+  split; apply open_with_no_panic; assumption.
+Qed.
+
 (** Non-vacuity: a built table with an odd-length UID, an optional title and private information,
     after a history with a failing and several successful operations, meets every hypothesis. *)
 Definition ex_builder : builder :=
@@ -124,6 +148,11 @@ Check C09_preamble_absent_outside_known : forall iu inm rest,
   dicm_at_128 (DICM ++ rest) = false ->
   open_by_path iu inm PAuto (DICM ++ rest) = read_meta iu inm (DICM ++ rest) /\
   open_by_reader iu inm PAuto (DICM ++ rest) = read_meta iu inm (DICM ++ rest).
+Check C09_read_total : forall iu inm b,
+  (forall w, read_meta iu inm b <> Panic w) /\ read_meta iu inm b <> Err 99.
+Print Assumptions C09_read_total.
+Print Assumptions C09_read_total_debug.
+Print Assumptions C09_open_total.
 Print Assumptions C09_invariant.
 Print Assumptions C09_failed_op_unchanged.
 Print Assumptions C09_ok_op_updates.
